@@ -452,6 +452,12 @@ class Evaluator:
             return lambda a: tuple(reversed(a))
         if name == "SeqEq":
             return lambda a, b: tuple(map(id, a)) == tuple(map(id, b))
+        if name == "FiltCb":
+            return lambda s, cb, i: tuple(e for e in s[:max(i, 0)] if cb(e))
+        if name.startswith("FiltK<"):
+            key = [kk for kk, v in L._FILT.items() if v.name() == name][0]
+            kind_of = self.heap_fn(key)
+            return lambda s, kd, i: tuple(e for e in s[:max(i, 0)] if val_eq(kind_of(e), kd))
         if name.startswith(("Pre<", "PreL<", "Post<", "PostL<")):
             kind, _, k = name[:-1].partition("<")
             key = [kk for kk, v in L._PRE.items() if L._PRE[kk][0].name() == f"Pre<{k}>"][0]
